@@ -59,57 +59,57 @@ def registry():
     # ---- Madgwick
     add("Madgwick/IMU", "imu", "T",
         lambda g, a, m, q0=None, **kw: F.Madgwick(g, a, **kw_q0(q0), **kw).Q,
-        lambda **kw: F.Madgwick(**kw), lambda f, q, g, a, m: f.updateIMU(q, g, a),
+        lambda **kw: F.Madgwick(**kw), lambda f, q, g, a, m, **k: f.updateIMU(q, g, a, **k),
         lambda f, dip: (G, None))
     add("Madgwick/MARG", "marg", "T",
         lambda g, a, m, q0=None, **kw: F.Madgwick(g, a, m, **kw).Q,
-        lambda **kw: F.Madgwick(**kw), lambda f, q, g, a, m: f.updateMARG(q, g, a, m),
+        lambda **kw: F.Madgwick(**kw), lambda f, q, g, a, m, **k: f.updateMARG(q, g, a, m, **k),
         lambda f, dip: (G, north_x(dip)), q0_honoured=False)
     # ---- Mahony
     add("Mahony/IMU", "imu", "T",
         lambda g, a, m, q0=None, **kw: F.Mahony(g, a, **kw_q0(q0), **kw).Q,
-        lambda **kw: F.Mahony(**kw), lambda f, q, g, a, m: f.updateIMU(q, g, a),
+        lambda **kw: F.Mahony(**kw), lambda f, q, g, a, m, **k: f.updateIMU(q, g, a, **k),
         lambda f, dip: (G, None))
     add("Mahony/MARG", "marg", "T",
         lambda g, a, m, q0=None, **kw: F.Mahony(g, a, m, **kw_q0(q0), **kw).Q,
-        lambda **kw: F.Mahony(**kw), lambda f, q, g, a, m: f.updateMARG(q, g, a, m),
+        lambda **kw: F.Mahony(**kw), lambda f, q, g, a, m, **k: f.updateMARG(q, g, a, m, **k),
         lambda f, dip: (G, north_y(dip)))
     # ---- EKF
     for fr in ("NED", "ENU"):
         add("EKF/IMU/" + fr, "imu", "T",
             lambda g, a, m, q0=None, fr=fr, **kw: F.EKF(g, a, frame=fr, **kw_q0(q0), **kw).Q,
-            lambda fr=fr, **kw: F.EKF(frame=fr, **kw), lambda f, q, g, a, m: f.update(q, g, a),
+            lambda fr=fr, **kw: F.EKF(frame=fr, **kw), lambda f, q, g, a, m, **k: f.update(q, g, a, **k),
             lambda f, dip: (np.array(f.a_ref, float), None))
         add("EKF/MARG/" + fr, "marg", "T",
             lambda g, a, m, q0=None, fr=fr, **kw: F.EKF(g, a, m, frame=fr, **kw_q0(q0), **kw).Q,
-            lambda fr=fr, **kw: F.EKF(frame=fr, **kw), lambda f, q, g, a, m: f.update(q, g, a, m),
+            lambda fr=fr, **kw: F.EKF(frame=fr, **kw), lambda f, q, g, a, m, **k: f.update(q, g, a, m, **k),
             lambda f, dip: (np.array(f.a_ref, float), np.array(f.m_ref, float)), defaults={"magnetic_ref": "dip_deg"})
     # ---- UKF
     add("UKF", "imu", "T",
         lambda g, a, m, q0=None, **kw: F.UKF(g, a, **kw_q0(q0), **kw).Q,
-        lambda **kw: F.UKF(**kw), lambda f, q, g, a, m: f.update(q, g, a),
+        lambda **kw: F.UKF(**kw), lambda f, q, g, a, m, **k: f.update(q, g, a, **k),
         lambda f, dip: (G, None))
     # ---- AQUA
     for adaptive in (False, True):
         suf = "/adaptive" if adaptive else ""
         add("AQUA/IMU" + suf, "imu", "R",
             lambda g, a, m, q0=None, adaptive=adaptive, **kw: F.AQUA(a, gyr=g, adaptive=adaptive, **kw_q0(q0), **kw).Q,
-            lambda adaptive=adaptive, **kw: F.AQUA(adaptive=adaptive, **kw), lambda f, q, g, a, m: f.updateIMU(q, g, a),
+            lambda adaptive=adaptive, **kw: F.AQUA(adaptive=adaptive, **kw), lambda f, q, g, a, m, **k: f.updateIMU(q, g, a, **k),
             lambda f, dip: (G, None))
         add("AQUA/MARG" + suf, "marg", "R",
             lambda g, a, m, q0=None, adaptive=adaptive, **kw: F.AQUA(a, m, g, adaptive=adaptive, **kw_q0(q0), **kw).Q,
-            lambda adaptive=adaptive, **kw: F.AQUA(adaptive=adaptive, **kw), lambda f, q, g, a, m: f.updateMARG(q, g, a, m),
+            lambda adaptive=adaptive, **kw: F.AQUA(adaptive=adaptive, **kw), lambda f, q, g, a, m, **k: f.updateMARG(q, g, a, m, **k),
             lambda f, dip: (G, north_x(dip)))
     # ---- Fourati
     add("Fourati", "marg", "T",
         lambda g, a, m, q0=None, **kw: F.Fourati(g, a, m, **kw).Q,
-        lambda **kw: F.Fourati(**kw), lambda f, q, g, a, m: f.update(q, g, a, m),
+        lambda **kw: F.Fourati(**kw), lambda f, q, g, a, m, **k: f.update(q, g, a, m, **k),
         lambda f, dip: (G, north_x(dip)), q0_honoured=False, defaults={"magnetic_dip": "dip_deg"})
     # ---- ROLEQ
     for fr in ("NED", "ENU"):
         add("ROLEQ/" + fr, "marg", "T",
             lambda g, a, m, q0=None, fr=fr, **kw: F.ROLEQ(g, a, m, frame=fr, **kw_q0(q0), **kw).Q,
-            lambda fr=fr, **kw: F.ROLEQ(frame=fr, **kw), lambda f, q, g, a, m: f.update(q, g, a, m),
+            lambda fr=fr, **kw: F.ROLEQ(frame=fr, **kw), lambda f, q, g, a, m, **k: f.update(q, g, a, m, **k),
             lambda f, dip: (np.array(f.a_ref, float), np.array(f.m_ref, float)), defaults={"magnetic_ref": "dip_deg"})
     # ---- FKF (batch only)
     add("FKF", "marg", "T",
@@ -130,12 +130,19 @@ def resolve_kw(cfg, dip_deg, extra=None):
     for k, v in cfg.defaults.items():
         kw[k] = float(dip_deg) if v == "dip_deg" else v
     kw.update(extra or {})
+    d = np.radians(float(dip_deg))
+    for k, v in list(kw.items()):       # markers: the magnetic reference given as a full field vector (micro-tesla, not a unit vector)
+        if isinstance(v, str) and v == "ref_vector_ned":
+            kw[k] = 48.3 * np.array([np.cos(d), 0.0, np.sin(d)])
+        elif isinstance(v, str) and v == "ref_vector_enu":
+            kw[k] = 48.3 * np.array([0.0, np.cos(d), -np.sin(d)])
     return kw
 
 
-def stream(cfg, inst, q0, G_, A, M):
-    """Feed samples 1..N-1 one at a time through the update method, starting from q0 (= row 0)."""
+def stream(cfg, inst, q0, G_, A, M, dt=None):
+    """Feed samples 1..N-1 one at a time through the update method, starting from q0 (= row 0); dt, when given, is passed to every call."""
     Q = [np.array(q0, float)]
+    k = {} if dt is None else {"dt": dt}
     for t in range(1, len(G_)):
-        Q.append(np.array(cfg.step(inst, Q[-1], G_[t], A[t], None if M is None else M[t]), dtype=float))
+        Q.append(np.array(cfg.step(inst, Q[-1], G_[t], A[t], None if M is None else M[t], **k), dtype=float))
     return np.array(Q)
